@@ -16,8 +16,9 @@ def filename_for(cps, style=0):
 
 
 def make_config(tmp, overrides, sources):
-    """sources: list of (filename, svg_text, codepoints).  Returns (config, inputs, picos)
-    where picos[i] is the picosvg-normalised text of source i (None for untouched formats)."""
+    """sources: list of (filename, svg_text, codepoints[, png_bytes]).  Returns (config, inputs,
+    picos) where picos[i] is the picosvg-normalised text of source i (None for untouched and
+    bitmap formats)."""
     from nanoemoji import config as cfgmod
     from nanoemoji import features, write_font
     from nanoemoji.glyph import glyph_name
@@ -29,18 +30,26 @@ def make_config(tmp, overrides, sources):
         flags.FLAGS(["verif"])
     tmp = Path(tmp)
     paths = []
-    for fn, text, cps in sources:
+    sources = [tuple(s) + (None,) * (4 - len(s)) for s in sources]
+    for fn, text, cps, png in sources:
         p = tmp / fn
         p.write_text(text)
         paths.append(p)
     fea = tmp / "features.fea"
-    fea.write_text(features.generate_fea([tuple(cps) for _, _, cps in sources]))
+    fea.write_text(features.generate_fea([tuple(cps) for _, _, cps, _ in sources]))
     cfg = cfgmod.load(None, additional_srcs=tuple(paths))._replace(family="Verif", fea_file=str(fea))
     cfg = cfg._replace(**overrides)
     inputs, picos = [], []
-    for (fn, text, cps), p in zip(sources, paths):
-        svg = SVG.fromstring(text)
+    from nanoemoji.png import PNG
+
+    for (fn, text, cps, png), p in zip(sources, paths):
+        svg = SVG.fromstring(text) if cfg.has_svgs else None
         pico_text = None
+        bitmap, bitmap_file = None, None
+        if cfg.has_bitmaps:
+            bitmap_file = p.with_suffix(".png")
+            bitmap_file.write_bytes(png)
+            bitmap = PNG(png)
         if cfg.has_picosvgs:
             # what the `picosvg` CLI step does
             svg = svg.topicosvg()
@@ -48,7 +57,7 @@ def make_config(tmp, overrides, sources):
                 svg.clip_to_viewbox(inplace=True)
             pico_text = svg.tostring(pretty_print=True)
             svg = SVG.fromstring(pico_text)  # what the worker parses from the picosvg file
-        inputs.append(write_font.InputGlyph(p, None, tuple(cps), glyph_name(tuple(cps)), svg, None))
+        inputs.append(write_font.InputGlyph(p if svg is not None else None, bitmap_file, tuple(cps), glyph_name(tuple(cps)), svg, bitmap))
         picos.append(pico_text)
     return cfg, inputs, picos
 
